@@ -51,10 +51,11 @@ def spec(cols, label, heur, target_only):
     return req, allowed
 
 
-def drive(cr, cols, label, heur, target_only, cap):
+def drive(cr, cols, label, heur, target_only, cap, fresh=True):
     import pandas as pd
-    PL.fresh_state()
-    cr.GLOBAL_PRIOR_COMB_COUNTS.clear()
+    if fresh:
+        PL.fresh_state()
+        cr.GLOBAL_PRIOR_COMB_COUNTS.clear()
     df = pd.DataFrame({c: ['u', 'v', 'u'] if i % 2 else ['p', 'p', 'q'] for i, c in enumerate(cols)})
     args = types.SimpleNamespace(heuristic=heur, label_column=label, target_ranking_only='True' if target_only else 'False', combination_number_upper_bound=cap,
                                  reference_model_JSON='', mi_stratified_sampling_ratio=1.0)
@@ -64,7 +65,6 @@ def drive(cr, cols, label, heur, target_only, cap):
         res = cr.mixed_rank_graph(df, args, PL.SerialPool(), PL.PB())
     finally:
         cr.get_importances_estimate_pairwise = saved
-        cr.GLOBAL_PRIOR_COMB_COUNTS.clear()
     return [tuple(t) for t in res.triplet_scores]
 
 
@@ -154,6 +154,14 @@ def run_job(job):
         w = {'cond': 'pairs', 'cols': cols, 'heur': heur, 'target_only': to, 'cap': cap}
         try:
             probs = check(drive(cr, cols, 'label', heur, to, cap), cols, 'label', heur, to, cap)
+            if not probs and cap >= maxcap - 1:
+                # a history of mini-batches in one process: every later batch covers the requested pairs as well
+                for k in (2, 3, 4):
+                    probs = check(drive(cr, cols, 'label', heur, to, cap, fresh=False), cols, 'label', heur, to, cap)
+                    if probs:
+                        probs = [f'mini-batch {k} of a history in one process: ' + probs[0]]
+                        w['batches'] = k
+                        break
         except Exception as e:
             probs = [f'{type(e).__name__}: {e}']
         if probs or out.twin:
@@ -168,9 +176,11 @@ def replay(w):
     cr, cu, tr, ie = PL.real_modules()
     try:
         trip = drive(cr, w['cols'], 'label', w['heur'], w['target_only'], w['cap'])
+        for k in range(2, w.get('batches', 1) + 1):
+            trip = drive(cr, w['cols'], 'label', w['heur'], w['target_only'], w['cap'], fresh=False)
     except Exception as e:
         return {'reproduced': True, 'signature': f'C06:exception:{type(e).__name__}', 'what': f'columns {w["cols"]}, {w["heur"]}, target_only={w["target_only"]}, cap {w["cap"]}: {type(e).__name__}: {e}'}
     probs = check(trip, w['cols'], 'label', w['heur'], w['target_only'], w['cap'])
     if probs:
-        return {'reproduced': True, 'signature': 'C06:' + probs[0].split()[0], 'what': f'columns {w["cols"]}, {w["heur"]}, target_only={w["target_only"]}, cap {w["cap"]}: ' + '; '.join(probs)[:500]}
+        return {'reproduced': True, 'signature': 'C06:' + probs[0].split()[0] + (':later-batch' if w.get('batches') else ''), 'what': (f'mini-batch {w["batches"]} of a history: ' if w.get('batches') else '') + f'columns {w["cols"]}, {w["heur"]}, target_only={w["target_only"]}, cap {w["cap"]}: ' + '; '.join(probs)[:500]}
     return {'reproduced': False, 'what': 'triplets match the specification'}
